@@ -1024,3 +1024,76 @@ Lemma original_order_transient_error :
   scan_entry_gen true false true false 1001 (mkAns None EOther) ex_key ex_pm = (false, [Looked ex_key; Dropped ex_key WOrphan]) /\
   scan_entry_gen false true true false 1001 (mkAns None EOther) ex_key ex_pm = (true, [Looked ex_key]).
 Proof. split; vm_compute; reflexivity. Qed.
+
+(* ================================================================== the block poller *)
+From Coq Require Import Sorted.
+
+Lemma poll_not_newer_spec : forall a b, evm_poll_not_newer a b = true <-> b <= a.
+Proof. intros a b. unfold evm_poll_not_newer. apply Z.geb_le. Qed.
+Lemma poll_safe_false : evm_poll_safe = false.
+Proof. reflexivity. Qed.
+
+Lemma poll_blocks_spec : forall last ans,
+  poll_blocks last ans =
+  match ans with
+  | None => (last, [], true)
+  | Some l => if last <? l then (l, [(l, false)], false) else (last, [], false)
+  end.
+Proof.
+  intros last [l|]; [|reflexivity]. unfold poll_blocks. rewrite poll_safe_false.
+  destruct (evm_poll_not_newer last l) eqn:E.
+  - apply poll_not_newer_spec in E. destruct (Z.ltb_spec last l); [lia|reflexivity].
+  - destruct (Z.ltb_spec last l) as [H|H]; [reflexivity|].
+    assert (E' : evm_poll_not_newer last l = true) by (apply poll_not_newer_spec; exact H).
+    rewrite E' in E. discriminate.
+Qed.
+
+(* successive polls publish a strictly increasing sequence of heads, each of them a head the node served in its poll,
+   all with Safe = false; lastBlock ends at least as high as every answer *)
+Theorem poll_seq_spec : forall answers last,
+  last <= fst (poll_seq last answers) /\
+  (forall a, In (Some a) answers -> a <= fst (poll_seq last answers)) /\
+  StronglySorted Z.lt (map fst (snd (poll_seq last answers))) /\
+  Forall (fun h => last < fst h /\ fst h <= fst (poll_seq last answers) /\ In (Some (fst h)) answers /\ snd h = false)
+         (snd (poll_seq last answers)).
+Proof.
+  intros answers. induction answers as [|a t IH]; intros last.
+  - cbn [poll_seq fst snd map]. repeat apply conj; [lia|intros a H; contradiction|constructor|constructor].
+  - cbn [poll_seq]. rewrite poll_blocks_spec. destruct a as [l|].
+    + destruct (Z.ltb_spec last l) as [Hlt|Hge]; cbn [fst snd app map].
+      * destruct (IH l) as [I1 [I2 [I3 I4]]]. repeat apply conj.
+        -- lia.
+        -- intros a [Ha|Ha]; [inversion Ha; subst; exact I1|apply I2; exact Ha].
+        -- constructor; [exact I3|]. rewrite Forall_forall in I4. apply Forall_forall. intros x Hx.
+           apply in_map_iff in Hx. destruct Hx as [h [Hh1 Hh2]]. subst x. exact (proj1 (I4 h Hh2)).
+        -- constructor.
+           ++ cbn [fst snd]. repeat apply conj; [exact Hlt|exact I1|left; reflexivity|reflexivity].
+           ++ rewrite Forall_forall in I4. apply Forall_forall. intros h Hh. destruct (I4 h Hh) as [J1 [J2 [J3 J4]]].
+              repeat apply conj; [lia|exact J2|right; exact J3|exact J4].
+      * destruct (IH last) as [I1 [I2 [I3 I4]]]. repeat apply conj.
+        -- exact I1.
+        -- intros a [Ha|Ha]; [inversion Ha; subst; lia|apply I2; exact Ha].
+        -- exact I3.
+        -- rewrite Forall_forall in I4. apply Forall_forall. intros h Hh. destruct (I4 h Hh) as [J1 [J2 [J3 J4]]].
+           repeat apply conj; [exact J1|exact J2|right; exact J3|exact J4].
+    + cbn [fst snd app map]. destruct (IH last) as [I1 [I2 [I3 I4]]]. repeat apply conj.
+      * exact I1.
+      * intros a [Ha|Ha]; [discriminate Ha|apply I2; exact Ha].
+      * exact I3.
+      * rewrite Forall_forall in I4. apply Forall_forall. intros h Hh. destruct (I4 h Hh) as [J1 [J2 [J3 J4]]].
+        repeat apply conj; [exact J1|exact J2|right; exact J3|exact J4].
+Qed.
+
+(* on heads that come from the poller the scan waits for the full consistency level in wait mode *)
+Theorem polled_head_expected : forall last answers n sf wait p,
+  In (n, sf) (snd (poll_seq last answers)) -> expected_of wait sf p = if wait then m_cl (p_msg p) else 0.
+Proof.
+  intros last answers n sf wait p H.
+  destruct (poll_seq_spec answers last) as [_ [_ [_ F]]]. rewrite Forall_forall in F.
+  destruct (F _ H) as [_ [_ [_ Hs]]]. cbn [snd] in Hs. subst sf.
+  unfold expected_of. rewrite expected_spec. destruct wait; reflexivity.
+Qed.
+
+(* a disabled poller publishes nothing; an enabled one stops at the first successful poll *)
+Lemma poll_tick_disabled : forall last answers, poll_tick false last answers = (last, [], false).
+Proof. reflexivity. Qed.
